@@ -206,26 +206,12 @@ impl Compiler {
             r is Ok ==> gen_post(*old(self), *final(self), true),
             sym_wf(final(self).symbols),   // also when the generator fails: compile_ast resets the table afterwards
     { unimplemented!() }
-    // block_post: PROVED-BY unit c02_blocks (verbatim body). gen_post: induction hypothesis (assumed).
-    #[verifier::external_body]
-    fn compile_block_statement(&mut self, stmts: &[Stmt]) -> (r: Result<(), Error>)
-        requires gen_inv(*old(self))
-        ensures
-            block_post(*old(self), *final(self), stmts@, r is Ok),
-            r is Ok ==> gen_post(*old(self), *final(self), true),
-            sym_wf(final(self).symbols),   // also when the generator fails: compile_ast resets the table afterwards
-    { unimplemented!() }
+//@ASSUMES unit=c02_blocks.rs fn=compile_block_statement full=1
 }
 
 impl Object {
     // PROVED-BY: O15.4 c15_function_roundtrip
     #[verifier::external_body]
     pub fn function(ip: u32, num_locals: u16) -> (o: Object) ensures spec_tag(o) == Type::Function, spec_fn_ip(o) == ip, spec_fn_locals(o) == num_locals { unimplemented!() }
-    // PROVED-BY: unit c06_arith (verbatim body of Object::checked_int)
-    #[verifier::external_body]
-    pub fn checked_int(value: Option<isize>) -> (r: Result<Object, Error>)
-        ensures
-            (value is Some && MIN_INT <= value->Some_0 <= MAX_INT) ==> (r is Ok && spec_tag(r->Ok_0) == Type::Int && spec_int(r->Ok_0) == value->Some_0),
-            !(value is Some && MIN_INT <= value->Some_0 <= MAX_INT) ==> r is Err,
-    { unimplemented!() }
+//@ASSUMES unit=c06_arith.rs fn=checked_int full=1
 }
